@@ -1,6 +1,6 @@
 (* Props/C10.v — property C10: distinct entities never share a page, anchor or copied file.
    Statements only; proofs are in Out/NamesProofs.v. *)
-From Ford Require Import Base.Str Out.Names Out.NamesProofs.
+From Ford Require Import Base.Str Out.Names Out.NamesProofs Corr.C10 Out.NamesSpecProofs.
 
 (* Two different entities registered for the same output directory never receive the same
    identifier, whatever the sequence of (repeated) requests; names may differ only in case,
@@ -49,3 +49,13 @@ Print Assumptions C10_src_copy_partial.
 Theorem C10_src_copy_refuted : ~ C10_src_copy_statement.
 Proof. intros H. destruct src_target_refuted as (p1 & p2 & N & E). exact (H p1 p2 N E). Qed.
 Print Assumptions C10_src_copy_refuted.
+
+(* The executable predicate that the check evaluates on the implementation's outputs (same entity:
+   same identifier; different entities sharing an output directory, or — without a page — a kind
+   word: different identifiers) holds of the model's outputs for every request sequence. *)
+Theorem C10_model_meets_spec : forall ros : list (req * str),
+  consistent (map fst ros) ->
+  Forall (fun r => no_tilde (final_name (r_name r))) (map fst ros) ->
+  spec_ok ros (run_idents (map fst ros)) = true.
+Proof. exact model_meets_spec. Qed.
+Print Assumptions C10_model_meets_spec.
